@@ -29,6 +29,11 @@ CHECKS = {
     text="TLC proves the composition theorem for the transcribed construction on all 463 CNFs over two variables x every gadget (arity <= 3, all thresholds, ite, flip, lifting); the real transformations are applied to the same formulas, to formulas with unused variables, to random formulas and (compression) to all small bipartite graphs, and TLC decides for every assignment of the new variables Sat(a,T(F)) <=> side condition and Sat(Induced(a),F), plus the documented variable count.",
     note="Trusted: projection of clauses, documented block layout used by Induced, TLC. Arity <= 3, <= 15 new variables.",
     ref="DESIGN.md §4 C05"),
+ "C07": dict(
+    technique="self-composition: TLA+ product of two pipeline runs under different ambient values (CliDet.tla) model-checked by TLC (SameOutput holds iff graphs are drawn after seeding, a falsy seed is honoured and the header has no ambient value; one expected counterexample per fact); pairs/triples of real processes with the same argv and seed under different hash seed, cwd and environment, with the random module wrapped, judged by TLC (JudgeDet.tla)",
+    text="TLC proves SameOutput on the product model and exhibits a counterexample for each of the three implementation facts. Every random sub-command, random graph construction and modifier (gnp, gnm, gnd, glrp, glrm sparse and dense, glrd, regular, plantclique, plantbiclique, addedges, splitedges), random transformation (shuffle, xorcomp, majcomp, chains), for cnfgen, pbgen and cnfshuffle, with seeds 0, 1, 42 (thorough: also -7, 2^31-1, 10^12), is run as 2-3 fresh processes with PYTHONHASHSEED 0/12345/987654321, cwd inside /repo, inside another git repository and in /, and a padded environment; outputs are compared byte for byte and every difference is a violation, classified by TLC through the logged seeding/draw events. Library generators with a seed argument are called twice in each of two processes.",
+    note="Trusted: process runner, byte comparison, the random-module wrapper (only used to classify), TLC. Observational: a dependency that never shows in the sampled runs is not excluded.",
+    ref="DESIGN.md §4 C07"),
  "C08": dict(
     technique="CNF/PB semantics in TLA+ (CnfSem.tla); pairs of formulas built by cnfgen vs pbgen (and CNF vs OPB formula class) judged by TLC over all assignments (JudgePair.tla); clause-blasting = native constraint equivalence model-checked (LinearMC)",
     text="For every formula helper shared by cnfgen and pbgen (all 32, with their option variants) and for every library generator with formula_class CNF and OPB, TLC compares variable count, variable names in order, and the truth value of both formulas on every assignment (<= 13/17 variables; candidate assignments beyond). The model-level reason (cardinality constraint = its clause blasting for all operators) is checked exhaustively by LinearMC.",
